@@ -551,6 +551,58 @@ def run(ctx, res):
                             stderr=err[-300:], failing_input=True,
                             note="set -e / function call / source: the script does not end at the first failing command with "
                                  "its status (or runs a different command sequence)")
+        # ---------------- L2r: a function name defined more than once -- in one script, by a sourced file after the
+        # script's own definition, by two sourced files, and redefined between two calls: a call runs the definition
+        # that was made LAST before it (C15_function_table: set_funcs, later definitions win).  Model = extracted
+        # Model/ShellScript.v on the same files.  (seed C15-set-func-first-definition-sticks)
+        def fdef(name, tag, style):
+            body = "    %s @x0 %s\n" % (hp, tag)
+            return ("function %s {\n%s}\n" % (name, body)) if style == 0 else ("function %s() {\n%s}\n" % (name, body))
+        # (run_script collects all definitions of a FILE before it runs the file's other lines, so within one file the
+        # last definition is the one every call of that file sees; the cases below only ask for what the property states:
+        # a definition made by a later file replaces an earlier one, and the last of two definitions in a file wins)
+        rcases = []
+        for st1 in (0, 1):
+            for st2 in (0, 1):
+                rcases.append(({"main.sh": fdef("f", "v1", st1) + fdef("f", "v2", st2) + "f\n"}, [["@x0", "v2"]]))
+                rcases.append(({"main.sh": fdef("f", "v1", st1) + "source lib.sh\nf\n", "lib.sh": fdef("f", "v2", st2)},
+                               [["@x0", "v2"]]))
+                rcases.append(({"main.sh": "source l1.sh\nf\nsource l2.sh\nf\nsource l1.sh\nf\n",
+                                "l1.sh": fdef("f", "v1", st1), "l2.sh": fdef("f", "v2", st2)},
+                               [["@x0", "v1"], ["@x0", "v2"], ["@x0", "v1"]]))
+                rcases.append(({"main.sh": "source l1.sh\nsource l2.sh\nf\ng\n",
+                                "l1.sh": fdef("f", "v1", st1) + fdef("g", "w1", st2), "l2.sh": fdef("g", "w2", st1)},
+                               [["@x0", "v1"], ["@x0", "w2"]]))
+        rl = []
+        for ff, _ in rcases:
+            flds = ["shrun", C.enc("main.sh")]
+            for nm, tx in sorted(ff.items()):
+                flds += [C.enc(nm), C.enc(tx)]
+            rl.append("\t".join(flds))
+        mo_r = C.run_model(ctx.model["C15"], C.write_cases("c15_shrun_redef.txt", rl))
+
+        def one_r(ix):
+            d = os.path.join(work, "r%d" % ix)
+            os.makedirs(d)
+            r_ = run_script(ctx.cicada, rcases[ix][0], "main.sh", [], d)
+            shutil.rmtree(d, ignore_errors=True)
+            return r_
+        with ThreadPoolExecutor(max_workers=C.NCPU) as ex:
+            routs = list(ex.map(one_r, range(len(rcases))))
+        res.count("L2r_function_redefinition_runs", len(rcases))
+        nviol = 0
+        for ix, (rc, log, err) in enumerate(routs):
+            ff, want = rcases[ix]
+            obs = "trace=[%s] status=%s" % (";".join(",".join(a) for a in log), rc)
+            prop = "trace=[%s] status=%s" % (";".join(",".join(a) for a in want), 0)
+            if obs == prop and mo_r[ix] == obs:
+                res.nontrivial("l2r:%d" % ix)
+                continue
+            nviol += 1
+            if nviol <= 3:
+                res.violate(kind="oracle" if obs != prop else "correspondence", layer="L2r", entry="script", files=ff, expected=prop,
+                            observed=obs, model=mo_r[ix], stderr=err[-300:], failing_input=obs != prop,
+                            note="a call must run the definition of the function that was made last before it")
         # ---------------- L2c: set -e in effect over random block-structured scripts (C15_sete):
         # the ASTs of C14's generator, `set -e` as first line; reference = extracted sem_block with e = true,
         # and the transcribed interpreter (run_lines with exit_on_error on) on the model's own parse
